@@ -1,6 +1,7 @@
 package main
 
 import (
+	"time"
 	"fmt"
 	"strings"
 
@@ -15,6 +16,7 @@ type session struct {
 	conn *ScriptConn
 	unit byte
 	e, w uint
+	hung bool // a call on this client never returned: the next exchange starts on a fresh client
 }
 
 func newSession(kind string) (*session, error) {
@@ -35,6 +37,13 @@ func (s *session) setEnc(e, w uint) {
 // Unread input from earlier exchanges stays pending unless clear is true.
 // Returns the model line (cex …), the implementation's canonical output, and the request seen.
 func (s *session) exchange(op *Op, ending string, clear bool, reply func(w wireReq) [][]byte) (line, impl string, req wireReq) {
+	if s.hung {
+		if s2, err := newSession(s.kind); err == nil {
+			s2.setUnit(s.unit)
+			s2.setEnc(s.e, s.w)
+			*s = *s2
+		}
+	}
 	if clear {
 		s.conn.Arm(nil, "timeout")
 	}
@@ -59,7 +68,20 @@ func (s *session) exchange(op *Op, ending string, clear bool, reply func(w wireR
 		s.conn.Feed(chunks...)
 	}
 	s.conn.TakeWritten()
-	out := op.Exec(s.mc)
+	// a call that never returns (a lock kept by an earlier failed exchange, …) must not stall the
+	// check: it is reported as the outcome `hang`
+	var out string
+	{
+		mc := s.mc
+		done := make(chan string, 1)
+		go func() { done <- op.Exec(mc) }()
+		select {
+		case out = <-done:
+		case <-time.After(6 * time.Second):
+			out = "hang"
+			s.hung = true
+		}
+	}
 	s.conn.OnWrite = nil
 	written := s.conn.TakeWritten()
 	ws := "none"
@@ -71,8 +93,17 @@ func (s *session) exchange(op *Op, ending string, clear bool, reply func(w wireR
 		ws = strings.Join(parts, "|")
 	}
 	txnAfter := 0
-	if !isRTUKind(s.kind) {
-		txnAfter = s.mc.VerifConfig().LastTxnId
+	if !isRTUKind(s.kind) && !s.hung {
+		// the hook takes the client's lock: a lock leaked by the call just made shows here
+		mc := s.mc
+		got := make(chan int, 1)
+		go func() { got <- mc.VerifConfig().LastTxnId }()
+		select {
+		case txnAfter = <-got:
+		case <-time.After(3 * time.Second):
+			s.hung = true
+			out += " then-hang"
+		}
 	}
 	impl = fmt.Sprintf("w=%s r=%s txn=%d pend=%s", ws, out, txnAfter, hx(s.conn.Pending()))
 	line = fmt.Sprintf("cex %s %d %d %d %d %s %s %s %s", s.kind, s.unit, s.e, s.w, txnBefore,
